@@ -19,7 +19,7 @@ def gen_tree(r, xml):
         for _ in range(r.choice([0, 1, 2, 3, 4])):
             k = r.random()
             if k < 0.3:
-                el.append(bs4.NavigableString(r.choice(['a', 'b', ' ', 'ab', 'ba', '\n', '', 'a b', 'b\n'])))
+                el.append(bs4.NavigableString(r.choice(['a', 'b', ' ', 'ab', 'ba', '\n', '', 'a b', 'b\n', 'a"', '"a"b', "b'", 'a\\'])))
             elif k < 0.4:
                 el.append(bs4.Comment(r.choice(['a', 'ab'])))
             elif k < 0.5:
